@@ -42,6 +42,7 @@ let step_oracles (bump : str -> unit) (pre : vt) (f : func) (post : vt) : (str *
      re-wrapped but never altered (at most cut short), exactly as parked when the size is unchanged *)
   chk "C16" "return_text" (holds_C16_return_text pre f post);
   chk "C16" "return_list" (holds_C16_return_list pre f post);
+  chk "C16" "return_list_any" (holds_C16_return_list_any pre f post);
   chk "C17" "saved" (holds_C17 pre f post);
   chk "C17" "per_screen_contexts" (holds_C17_switch pre f post);
   chk "C18" "tabs" (holds_C18 pre f post);
